@@ -36,7 +36,7 @@ COMPONENTS = {"real": ["setigen.cadence.Cadence.add_signal / overwrite_times / c
 ASSUMPTIONS = ["box frequency profiles are not combined with sub-sample integration (knife-edge pixels)",
                "an interrupt delivered on the cadence loop's own restore statement is out of scope",
                "the failing frame's own data is not judged after a fault"]
-PROBES = ["callback_raised_on_frame_k>0", "interrupt_inside_later_frame", "integrate_path", "integrate_t_profile",
+PROBES = ["frame_with_own_time_origin", "callback_raised_on_frame_k>0", "interrupt_inside_later_frame", "integrate_path", "integrate_t_profile",
           "integrate_f_profile", "doppler_smearing", "slice_subset", "label_subset", "repeated_injection", "gaps_between_frames",
           "array_path", "bounding_range", "stateful_rfi_path", "noncontiguous_subset", "parent_built_with_t_overwrite", "second_injection_through_other_selection"]
 MAX_LINE_POINTS = 1500
@@ -55,6 +55,9 @@ def generate(rng, tier):
     for i in range(nfr):
         tc = tch if same_t else rng.choice([2, 3, 4, 5])
         frames.append({"tchans": tc, "t_start": t, "noise": rng.random() < 0.4, "seed": rng.randrange(1 << 30)})
+        if rng.random() < 0.12:
+            # a frame whose own time axis does not start at 0 (as consolidated frames' axes do not; a user may assign one)
+            frames[-1]["ts_origin"] = rng.choice([100.0, 0.5, 1e6])
         t = t + tc * geom["dt"] + rng.choice([0.0, 0.0, 10.0, 300.25, 7.0])
     if rng.random() < 0.1 and nfr > 1:
         frames[0], frames[-1] = frames[-1], frames[0]           # not chronological
@@ -229,6 +232,8 @@ def build_frames(sc):
                        ascending=g["ascending"], t_start=spec["t_start"], seed=spec["seed"])
         if spec["noise"]:
             fr.add_noise(x_mean=10, x_std=1, noise_type="gaussian")
+        if spec.get("ts_origin"):
+            fr.ts = fr.ts + spec["ts_origin"]
         frames.append(fr)
     return frames
 
@@ -346,6 +351,8 @@ def execute(sc, ctx):
         return path, tp, fp, bpp, timedep
 
     ts_before = [np.array(fr.ts, copy=True) for fr in all_frames]
+    if any(sp.get("ts_origin") for sp in sc["frames"]):
+        ctx.hit("frame_with_own_time_origin")
     expected_delta = [np.zeros(fr.shape) for fr in members]
     timedep = False
     base_members, base_t0 = members, t0
@@ -375,6 +382,8 @@ def execute(sc, ctx):
             off = fr.t_start - t0
             twin = stg.Frame(fchans=g["fchans"], tchans=fr.tchans, df=g["df"], dt=g["dt"], fch1=g["fch1"],
                              ascending=g["ascending"], t_start=fr.t_start, seed=1)
+            k_all = all_frames.index(fr)
+            twin.ts = np.array(ts_before[k_all], copy=True)       # "that frame's own times"
             sp = (lambda tt, _p=tpath, _o=off: _p(np.asarray(tt) + _o)) if callable(tpath) else tpath
             st = (lambda tt, _p=ttp, _o=off: _p(np.asarray(tt) + _o)) if callable(ttp) else ttp
             want = twin.add_signal(sp, st, tfp, tbpp, **kw)
